@@ -11,6 +11,9 @@ CLAIMED = {
  "C04": ("7 C04", "TLC model checking of the composition spec (every sequence over a small alphabet up to a bound and over all 20 residues up to length 2: position sum = count form, permutation invariance, FCR/NCPR identities, fractions sum to 1) + replay of every state into the 18 scalar getters and the 20 amino-acid fractions against TLC's exact rationals + TLC trace validation of replies recorded on random sequences and their permutations, with call histories", NOTE),
  "C06": ("7 C06", "TLC model checking of the recoding laws (every sequence over 5 letters up to a bound x every group pair: swap, complement, Omega = kappa_X(PEDKR), kappa = kappa_X(ED,KR); kappa-level through inversion invariance in MC_Patterning) + relations between real replies and TLC trace validation of every get_Omega / get_kappa_X / get_Omega_sequence reply on exhaustive short and random sequences x random groups", NOTE),
  "C08": ("7 C08", "TLAPS proof (unbounded: the coded cascade is total, equals the documented thresholds, signs of regions 4/5) + TLC model checking of the same over every (p,n,z) up to a bound + every triple realised as a sequence and replayed into get_phasePlotRegion", NOTE + "; TLAPS SMT back end trusted"),
+ "C10": ("7 C10", "TLC model checking of the profile spec (every sequence over 6 letters up to a bound x every window: coded flank arithmetic = documented placement, w=N value = global parameter, delta = mean squared deviation of the w=5,6 sigma profiles) + replay of every state x every window 1..N+3 into the five get_linear_* calls against TLC's exact profiles + TLC trace validation on random sequences x windows x user group lists", NOTE),
+ "C11": ("7 C11", "TLC model checking of the complexity geometry (every (N,w,s) up to a bound: K windows, coded position row strictly increasing in 1..N; LC/LZW in [0,1] on every 3-letter window) + TLC trace validation of every get_linear_complexity reply on exhaustive short and random sequences (K, positions, range, locality against the window alone, WF = entropy kernel over reduced counts; unknown type / w>N rejected)", NOTE + "; the entropy kernel -(c/W)log_k(c/W) is computed by the harness with 60-digit decimals"),
+ "C12": ("7 C12", "TLC model checking of the documented partitions (exactly size groups, disjoint cover, idempotent homomorphism; sizes 0..25) + the real residue map of all 12 sizes x 20 residues and replies on random sequences / user alphabets of every class judged by TLC against the partitions and the acceptance rule", NOTE),
  "C05": ("7 C05", "TLC model checking (delta numerator, SCD coefficients and delta-max invariant under reversal / inversion / p<->n for every pattern up to a bound) + replay of every state with random class-preserving substitutions, reversal and inversion into the five getters + TLC trace validation of base and variants on long random sequences", NOTE),
  "C07": ("7 C07", "TLC model checking of the SCD coefficients (zero with < 2 charges, pattern-only, symmetric) + replay of every pattern up to a bound into get_SCD + TLC trace validation on long random / strongly correlated sequences with a sqrt table whose bracket TLC verifies", NOTE),
  "C02": ("7 C02", "TLC model checking of the patterning spec (every charge pattern up to a length bound is a state; the scaled-integer delta is shown equal to the Das-Pappu definition in exact rationals) + replay of every TLC state into get_delta + TLC trace validation (Trace_Queries) of get_delta replies recorded from the real code on long random sequences with random call histories",
